@@ -16,7 +16,7 @@ TOL_MI_HIST = 1e-4  # fixed-width histogram MI: float32 accumulation of terms
 
 META = dict(
     shards={"quick": 16, "thorough": 16},
-    budget={"quick": 40, "thorough": 540},
+    budget={"quick": 50, "thorough": 540},
     timeout={"quick": 600, "thorough": 3000},
     rule=("cases: (a) every 2-series data set over {-1,0,1} of length 3 "
           "(quick) / 3..4 (thorough) x tau_max in {0,1} for cross_correlation "
@@ -43,7 +43,11 @@ META = dict(
           "conditioning set is rank deficient, or (knn) where a competing "
           "distance lies within 4e-10 of the k-th neighbour distance are "
           "undefined: only 'no finite value outside the range of the "
-          "statistic' is required there.  Relations per case: lag-0 symmetry, "
+          "statistic' is required there.  Spearman: main class = anomalies "
+          "whose sorted samples are separated by > 1e-9 x range in every "
+          "series; (nearly) tied anomalies are a separately signed class "
+          "(':ties') on which only the comparison with average-rank "
+          "Spearman rho is made.  Relations per case: lag-0 symmetry, "
           "|r|<=1+1e-6, MI>=-1e-6, MI<=log(#bins)+1e-6, positive affine maps "
           "with power-of-two scales, reordering of the series, 'max' summary "
           "= value/lag at the (absolute) maximum of the 'all' lag function "
@@ -52,28 +56,30 @@ META = dict(
           "off-diagonal entry with a non-degenerate value (0.05<|r|<0.95 resp. "
           "MI>0.01), i.e. a wrong window, normalisation or index would "
           "change a compared number."),
-    floors={"quick": {"runs_without_hard_kill": 1, "cc_all_compared": 150, "cc_max_compared": 150,
-                      "symmetrize_compared": 150, "pure_cc_compared": 40,
-                      "twin_cc_compared": 40, "mi_gauss_compared": 40,
-                      "mi_binning_compared": 40, "mi_knn_compared": 15,
-                      "it_gauss_compared": 30, "clim_pearson_compared": 15,
-                      "clim_spearman_compared": 10,
-                      "clim_partial_compared": 8, "clim_mi_compared": 15,
-                      "surr_pearson_compared": 15, "surr_mi_compared": 15,
-                      "affine_checked": 100, "reorder_checked": 100},
-            "thorough": {"runs_without_hard_kill": 1, "cc_all_compared": 1500, "cc_max_compared": 1500,
-                         "symmetrize_compared": 1500,
-                         "pure_cc_compared": 300, "twin_cc_compared": 300,
-                         "mi_gauss_compared": 300,
-                         "mi_binning_compared": 300, "mi_knn_compared": 100,
-                         "it_gauss_compared": 200,
-                         "clim_pearson_compared": 100,
-                         "clim_spearman_compared": 60,
-                         "clim_partial_compared": 50,
-                         "clim_mi_compared": 100,
-                         "surr_pearson_compared": 100,
-                         "surr_mi_compared": 100,
-                         "affine_checked": 800, "reorder_checked": 800}},
+    floors={"quick": {"runs_without_hard_kill": 1, "cc_all_compared": 150,
+                      "cc_max_compared": 150, "symmetrize_compared": 300,
+                      "pure_cc_compared": 80, "twin_cc_compared": 140,
+                      "mi_gauss_compared": 90, "mi_binning_compared": 110,
+                      "mi_knn_compared": 60, "it_gauss_compared": 90,
+                      "clim_pearson_compared": 100,
+                      "clim_spearman_compared": 60,
+                      "clim_partial_compared": 50, "clim_mi_compared": 100,
+                      "surr_pearson_compared": 60, "surr_mi_compared": 60,
+                      "affine_checked": 800, "reorder_checked": 1000},
+            "thorough": {"runs_without_hard_kill": 1,
+                         "cc_all_compared": 4500, "cc_max_compared": 4500,
+                         "symmetrize_compared": 9000,
+                         "pure_cc_compared": 2000, "twin_cc_compared": 3500,
+                         "mi_gauss_compared": 2800,
+                         "mi_binning_compared": 3500,
+                         "mi_knn_compared": 1800, "it_gauss_compared": 2800,
+                         "clim_pearson_compared": 3500,
+                         "clim_spearman_compared": 2000,
+                         "clim_partial_compared": 2000,
+                         "clim_mi_compared": 3500,
+                         "surr_pearson_compared": 2200,
+                         "surr_mi_compared": 2200,
+                         "affine_checked": 25000, "reorder_checked": 30000}},
     exhaustive_subspaces={
         "quick": ["all 729 two-series data sets over {-1,0,1}, T=3, "
                   "tau_max in {0,1}, cross_correlation all+max"],
@@ -94,8 +100,11 @@ META = dict(
         "constant window is a documented refusal (case counted as rejected)",
         "climate networks: similarity_measure() is documented to be the "
         "absolute value (float32) of calculate_similarity_measure(anomaly)",
-        "knn estimator only run with T-tau_max > knn+2 (the growing-cube "
-        "search cannot terminate otherwise; robustness observation, not C10)",
+        "knn estimator only run with T-tau_max > knn+2 and on windows whose "
+        "single-precision standardisation is finite (the growing-cube "
+        "search cannot terminate otherwise; robustness observation, not "
+        "C10); a hard watchdog (90 s/case) turns a non-returning kernel into "
+        "INCONCLUSIVE, a signal death into an event '<call>:crashes:<SIG>'",
     ],
     resume_on_death=True,   # see run()/post(): kernels that kill or hang
     technique="differential testing against independent reference statistics "
@@ -687,11 +696,11 @@ def fam_mi(ctx, mods, r, k, cid):
         if scale != 1.0:
             # known scaling: verify 'max' against the equally scaled
             # reference so that other errors stay visible
-            nbm = check_mi_max(ctx, name + ":scaled", SL[0], SL[1], RB,
+            check_mi_max(ctx, name + ":scaled", SL[0], SL[1], RB,
                                TOL_R, 1e-6, cid, bcase, scale=scale)
         else:
-            nbm = check_mi_max(ctx, name, SL[0], SL[1], RB, TOL_R, 1e-6,
-                               cid, bcase)
+            check_mi_max(ctx, name, SL[0], SL[1], RB, TOL_R, 1e-6, cid,
+                         bcase)
         ctx.count("mi_binning_max_compared")
     # exact relations on dyadic data (ordering and ties preserved exactly)
     if style in ("dyadic", "int"):
@@ -1087,7 +1096,8 @@ def fam_clim(ctx, mods, r, k, cid):
             continue
         # the statistic itself, on the reference anomaly
         nbad, mx, idx = worst(sgn, Rm, tol)
-        ctx.maxstat(f"clim_{kind}_max_err", mx if nbad >= 0 else 0)
+        ctx.maxstat(f"clim_{kind}{'_ties' if sig_tag else ''}_max_err",
+                    mx if nbad >= 0 else 0)
         if nbad:
             ctx.violation(f"{cname}.calculate_similarity_measure{sig_tag}:"
                           "differs",
@@ -1096,10 +1106,12 @@ def fam_clim(ctx, mods, r, k, cid):
                            float(_f(sgn)[tuple(idx)]),
                            "ref": None if idx is None else
                            float(Rm[tuple(idx)])}, cid)
-            if sig_tag:
-                # tied ranks: relations below would only restate this event
-                ctx.count("clim_spearman_ties_compared")
-                continue
+        if sig_tag:
+            # (nearly) tied ranks are a separately signed input class: the
+            # relations below would only restate the reference comparison
+            # (rounding noise decides the rank order of tied samples)
+            ctx.count("clim_spearman_ties_compared")
+            continue
         # the stored similarity = |statistic| of the object's own anomaly
         nb2, _, idx = worst(sim, np.where(np.isnan(Rm), np.nan,
                                           np.abs(_f(sgn))), tol)
@@ -1115,10 +1127,7 @@ def fam_clim(ctx, mods, r, k, cid):
                "Spearman": "clim_spearman_compared",
                "PartialCorrelation": "clim_partial_compared",
                "MutualInfo": "clim_mi_compared"}[kind]
-        if not sig_tag:
-            ctx.count(cnt)
-        else:
-            ctx.count("clim_spearman_ties_compared")
+        ctx.count(cnt)
         if kind == "MutualInfo":
             ctx.count("clim_mi_f32_vs_f64_bin_flips", int(tag))
             nd = nondegenerate_mi(R)
@@ -1460,7 +1469,7 @@ def run(ctx):
     sched = []
     for name, fn, w in FAMILIES:
         sched += [(name, fn)] * w
-    cap = 120000 if ctx.thorough else 3200
+    cap = 120000 if ctx.thorough else 6400
     k = 0
     while ctx.time_left() > 0 and k < cap:
         k += 1
